@@ -20,7 +20,7 @@ structure G where
   ncell : Nat                       -- cells materialised so far (at attachment time)
   cell : Nat → Int
   applied : Int                     -- ghost: Σ x over updates whose linearization point has occurred
-  active : Nat := 0                 -- ghost: number of threads inside an operation
+  actv : List Nat := []             -- ghost: ids of the threads inside an operation
   maint : Bool := false             -- ghost: a maintenance operation (Store/Reset/SumAndReset) is running
 
 def sumTo (f : Nat → Int) : Nat → Int
